@@ -447,8 +447,8 @@ def routes_case(rng, ctx, scn):
 # ------------------------------------------------------------------ driver ---
 def plan(tier, seed):
     n_shards = 8 if tier == 'quick' else 16
-    calls = 60 if tier == 'quick' else 1300
-    routes = 12 if tier == 'quick' else 250
+    calls = 60 if tier == 'quick' else 8000
+    routes = 12 if tier == 'quick' else 1000
     return [{'calls': calls, 'routes': routes} for _ in range(n_shards)]
 
 
